@@ -41,7 +41,7 @@ except ImportError:
 __all__ = ['IO']
 
 line_pattern = re.compile(br'(.*?)\r?\n')
-reply_line_pattern = re.compile(br'((\d\d\d)([ \t-])(.*?))\r?\n')
+reply_line_pattern = re.compile(br'((\d\d\d)(?:([ \t-])(.*?))?)\r?\n')
 command_pattern = re.compile(br'^([a-zA-Z]+)\s*$')
 command_arg_pattern = re.compile(br'^([a-zA-Z]+)\s+(.+?)\s*$')
 
@@ -152,7 +152,7 @@ class IO(object):
                     if code and code != match.group(2):
                         raise BadReply(match.group(1))
                     code = match.group(2)
-                    message_lines.append(match.group(4))
+                    message_lines.append(match.group(4) or b'')
                     self.recv_buffer = input[match.end(0):]
 
                     if match.group(3) != b'-':
